@@ -149,9 +149,19 @@ class World(object):
         socc, ev, tsv, kra = self.socc, self.evalues, self.tsvalues, self.kra
         if self.vac:
             v = self.vacsite if vacsite is None else vacsite
-            if decoy:
+            if decoy and self.w.get("shared_sup") != "jumpnet":
                 v = self.jumping[(self.jumping.index(v) + 1) % len(self.jumping)]
             sup.addvacancy(v)
+        if decoy and self.w.get("shared_sup") == "jumpnet":
+            # same energy model (spectators, clusters, values, vacancy), but a jump network that is laid out
+            # differently: jump types and jumps in reverse order, the other jumping species where there are two
+            chem, jn = self.chem, [jl[::-1] for jl in self.jn[::-1]]
+            if self.w["crystal"] == "b2m":
+                chem = 1 - self.chem
+                jn = self.crys.jumpnetwork(chem, CRYSTALS["b2m"][1])
+            if self.vac and sup.mobileindices[sup.vacancy % sup.Nmobile][0] != chem:
+                chem, jn = self.chem, [jl[::-1] for jl in self.jn[::-1]]
+            return cluster.MonteCarloSampler(sup, socc, self.ce, ev, chem, jn, KRAvalues=0.25)
         if decoy:
             socc, ev, tsv = 1 - self.socc, self.evalues[::-1] + 1.0, self.tsvalues[::-1] - 0.5
             kra = (self.kra[::-1] + 0.25) if isinstance(self.kra, np.ndarray) else self.kra + 0.25
@@ -169,10 +179,10 @@ class World(object):
 _ADMIT = {}
 
 
-def c34_admissible(name, skey, cutoff, order):
-    """Minimum-image predicate of DESIGN 4.5, by brute force: no jump lands on its own image and no
-    (TS/vacancy) cluster placed in the supercell touches one supercell index twice."""
-    key = (name, skey, cutoff, order)
+def c34_admissible(name, skey, cutoff, order, vac=True):
+    """Minimum-image predicate of DESIGN 4.5, by brute force: no jump lands on its own image and (in worlds
+    with a vacancy) no (TS/vacancy) cluster placed in the supercell touches one supercell index twice."""
+    key = (name, skey, cutoff, order, bool(vac))
     if key in _ADMIT:
         return _ADMIT[key]
     import os
@@ -189,7 +199,7 @@ def c34_admissible(name, skey, cutoff, order):
             dR, cj = crys.cart2pos(crys.pos2cart(zero, (chem_of(name), i0)) + dx)
             if sup.index(zero, (chem_of(name), i0))[0] == sup.index(dR, cj)[0]:
                 ok = False
-    if ok and mode == "full":
+    if ok and mode == "full" and (vac or os.environ.get("MCSIM_C34_PRED_NOVAC", "jump") == "full"):
         for group in (ce, vce, ts, tsv):
             for clset in group:
                 for cl in clset:
@@ -229,6 +239,8 @@ class Run(RunBase):
         self.started = False
         self.needs_start = False
         self.samplers = {}                    # C34 vacancy walk: vacancy site -> never-started sampler
+        self.quiet = False                    # current op is unobserved (no oracle call touches the SUT)
+        self.recent_trials = []               # site lists of trial moves announced earlier in this history
         # C35
         self.jit = None
         self.jit_other = None                 # frozen copy + snapshot
@@ -309,7 +321,7 @@ class Run(RunBase):
 
     def unchanged_after_reject(self, index, what):
         self.faults["reject-" + what] += 1
-        if self.prop == "C33":
+        if self.prop == "C33" and not self.quiet:
             try:
                 self.check_fresh(index, "after rejected " + what)
             except Violation as v:
@@ -320,6 +332,12 @@ class Run(RunBase):
         op = self.propose_inner(rng)
         if op is not None and op.get("op") in ("update", "trial") and self.prop != "C35":
             op["as"] = rng.choice(("list", "list", "tuple", "array", "set"))
+        if op is not None and self.w.get("quiet") and rng.random() < self.w["quiet"]:
+            # unobserved step: the oracles make no call on the system under test during or after this op, so
+            # that stretches of the history contain exactly the calls a caller would make (an oracle that
+            # queries the sampler after every step is itself part of the history and can mask state that a
+            # query refreshes)
+            op["q"] = 1
         return op
 
     def propose_inner(self, rng):
@@ -336,6 +354,10 @@ class Run(RunBase):
             return {"op": "db", "n": rng.randrange(64), "stay": rng.random() < 0.6}
         if self.prop == "C33" and rng.random() < 0.04:
             return {"op": "sweep"}
+        if self.recent_trials and rng.random() < 0.07:
+            # perform a move that was announced by a trial some steps ago (other updates may lie in between)
+            a, b = rng.choice(self.recent_trials)
+            return {"op": "update", "occ": list(a), "unocc": list(b), "late": 1}
         x = rng.random()
         if x < 0.08:
             return self.gen_start(rng)
@@ -434,7 +456,11 @@ class Run(RunBase):
             return "skip(needs start)"
         if not self.started and kind not in ("start", "edit_then_start", "bad_start", "jit_create"):
             return "skip(not started)"
+        self.quiet = bool(op.get("q"))
         obs = getattr(self, "op_" + kind)(index, op)
+        if self.quiet:
+            self.probes["unobserved-op"] += 1
+            return "{}|{}|q".format(obs, occ_to_str(self.mocc) if self.mocc is not None else "-")
         self.check_fresh(index, "after " + kind)
         self.check_jit(index, "after " + kind)
         return "{}|{}|{}".format(obs, occ_to_str(self.mocc) if self.mocc is not None else "-",
@@ -525,6 +551,7 @@ class Run(RunBase):
             self.faults["redundant-trial-entries"] += 1
         d = self.mc.deltaE_trial(self._as(op.get("as"), a), self._as(op.get("as"), b))
         self.probes["trial"] += 1
+        self.recent_trials = (self.recent_trials + [(a, b)])[-4:]
         return "dE=" + fhex(d)
 
     def op_update(self, index, op):
@@ -545,8 +572,10 @@ class Run(RunBase):
             self.faults["repeated-site-in-update"] += 1
         if len(a) + len(b) > 2:
             self.probes["multi-site-update"] += 1
-        E0 = mc.E()
-        announced = mc.deltaE_trial(a, b) if distinct else None
+        if op.get("late"):
+            self.probes["update-of-an-earlier-trial"] += 1
+        E0 = None if self.quiet else mc.E()
+        announced = mc.deltaE_trial(a, b) if (distinct and not self.quiet) else None
         mc.update(self._as(op.get("as"), a), self._as(op.get("as"), b))
         if op.get("as") not in (None, "list"):
             self.probes["sites-as-" + op["as"]] += 1
@@ -556,7 +585,7 @@ class Run(RunBase):
         for i in b:
             if self.mocc[i] == 1:
                 self.mocc[i] = 0
-        E1 = mc.E()
+        E1 = None if self.quiet else mc.E()
         if self.prop == "C33" and announced is not None:
             self.checks += 1
             if not self.W.close(E1 - E0, announced):
@@ -751,11 +780,13 @@ class Run(RunBase):
         if not occd or not unoc:
             return "skip(no swap possible)"
         o, u = unoc[op["o"] % len(unoc)], occd[op["u"] % len(occd)]
-        d_ref = self.mc.deltaE_trial((o,), (u,))
-        d_jit = self.jit.deltaE_trial(o, u)
-        self.checks += 1
-        if not self.W.close(d_ref, d_jit):
-            self.fail("trial", "deltaE_trial({},{}) reference {!r} compiled {!r}".format(o, u, d_ref, d_jit))
+        d_ref = float("nan")
+        if not (self.quiet and op["do"]):
+            d_ref = self.mc.deltaE_trial((o,), (u,))
+            d_jit = self.jit.deltaE_trial(o, u)
+            self.checks += 1
+            if not self.W.close(d_ref, d_jit):
+                self.fail("trial", "deltaE_trial({},{}) reference {!r} compiled {!r}".format(o, u, d_ref, d_jit))
         if op["do"]:
             # two independent samplers: the order in which the caller advances them must not matter
             if op.get("jit_first"):
@@ -912,16 +943,18 @@ class Engine(object):
             if nsites > (54 if self.tier == "thorough" else 36):
                 continue
             jumps = True if self.prop == "C34" else rng.random() < 0.6
-            if self.prop == "C34" and not c34_admissible(c, s, cutoff, order):
-                continue
             vac = rng.random() < 0.45
+            ts_drawn = rng.random() < 0.6
+            if self.prop == "C34" and not c34_admissible(c, s, cutoff, order, vac or ts_drawn):
+                continue
             if vac and nsites < 2:
                 continue   # a cell whose only site is the vacancy holds no atoms: no sampler to speak of
             w = {"crystal": c, "super": s, "cutoff": cutoff, "order": order, "vac": vac,
                  "vacsite": rng.randrange(64), "jumps": jumps, "kra": rng.choice(("scalar", "list")),
-                 "ts": jumps and rng.random() < 0.6, "values": rng.choice(("dyadic", "dyadic", "normal")),
+                 "ts": jumps and ts_drawn, "values": rng.choice(("dyadic", "dyadic", "normal")),
                  "vseed": rng.randrange(1 << 30), "sseed": rng.randrange(1 << 30)}
-            w["shared_sup"] = rng.random() < 0.3
+            w["shared_sup"] = rng.choice((False, False, False, False, "values", "jumpnet"))
+            w["quiet"] = rng.choice((0, 0, 0.5, 0.9))
             w["class"] = "{}/{}/c{}o{}{}{}{}".format(c, s, cutoff, order, "/vac" if vac else "",
                                                      "/jn" if jumps else "", "/ts" if w["ts"] else "")
             return w
